@@ -7,7 +7,8 @@ CONSTANTS
   MaxLen = 5
   Record = TRUE
   Starts = {0, 400, 1000, 2600}
-  CtxChoices = {-1, -1, 0, 700, 1500, 3100, 8000, 20000, 70000, 300000}
+  CtxChoices = {0, 700, 1500, 3100, 8000, 20000, 70000, 300000}
+  Rich = FALSE
   Sim = TRUE
 INIT MCInit
 NEXT SimNext
